@@ -1,5 +1,151 @@
 import ZoektModel.Basic.Proto
+import ZoektModel.C07.Driver
+import ZoektModel.C06.Spec
 namespace ZoektModel.C06
-/-- stub: no model driver for C06 yet -/
-def main : IO Unit := ZoektModel.Proto.runLines (fun _ => ZoektModel.Proto.badCase "no model driver for C06")
+open ZoektModel ZoektModel.Proto ZoektModel.C07
+
+def fieldOfName (s : String) : Option Field :=
+  match s with
+  | "text" => some .text | "content" => some .content | "file" => some .file | "regex" => some .regex
+  | "repo" => some .repo | "sym" => some .sym | "branch" => some .branch | "lang" => some .lang
+  | "archived" => some .archived | "fork" => some .fork | "public" => some .pub | "meta" => some .metaF
+  | _ => none
+
+/-! prefix encoding of a grammar tree, tokens separated by `;`:
+    `Q<n>` n conjunctions · `C<n>` n expressions · `N` negation · `G<padL><padR>` group · `K<flavor>` case ·
+    `T<alias><val>` type · `A.<field>.<alias>.<quoted>.<texthex>.<namehex>` atom -/
+mutual
+def decE : Nat → List String → Option (E × List String)
+  | 0, _ => none
+  | fuel + 1, tok :: rest =>
+    if tok == "N" then do
+      let (e, rest) ← decE fuel rest
+      pure (.neg e, rest)
+    else if tok.startsWith "G" then
+      match (tok.drop 1).toString.toList with
+      | [a, b] => do
+        let (q, rest) ← decQ fuel rest
+        pure (.grp (a == '1') (b == '1') q, rest)
+      | _ => none
+    else if tok.startsWith "K" then do
+      let n ← (tok.drop 1).toString.toNat?
+      pure (.caseD n, rest)
+    else if tok.startsWith "T" then
+      match (tok.drop 1).toString.toList with
+      | [a, v] => some (.typeD (a.toNat - 48) (v.toNat - 48), rest)
+      | _ => none
+    else if tok.startsWith "A." then
+      match tok.splitOn "." with
+      | [_, f, a, q, t, n] => do
+        let f ← fieldOfName f
+        let a ← a.toNat?
+        let q ← bool? q
+        let t ← unhexB t
+        let n ← unhexB n
+        pure (.atom f a q t n, rest)
+      | _ => none
+    else none
+  | _, [] => none
+def decCj : Nat → Nat → List String → Option (Cj × List String)
+  | 0, _, _ => none
+  | fuel + 1, n, toks => do
+    let (e, rest) ← decE fuel toks
+    if n ≤ 1 then pure (.one e, rest)
+    else do
+      let (r, rest) ← decCj fuel (n - 1) rest
+      pure (.cons e r, rest)
+def decQn : Nat → Nat → List String → Option (Qy × List String)
+  | 0, _, _ => none
+  | fuel + 1, n, toks =>
+    match toks with
+    | tok :: rest =>
+      if tok.startsWith "C" then do
+        let k ← (tok.drop 1).toString.toNat?
+        if k = 0 then none else
+        let (c, rest) ← decCj fuel k rest
+        if n ≤ 1 then pure (.one c, rest)
+        else do
+          let (r, rest) ← decQn fuel (n - 1) rest
+          pure (.or c r, rest)
+      else none
+    | [] => none
+def decQ : Nat → List String → Option (Qy × List String)
+  | 0, _ => none
+  | fuel + 1, toks =>
+    match toks with
+    | tok :: rest =>
+      if tok.startsWith "Q" then do
+        let n ← (tok.drop 1).toString.toNat?
+        if n = 0 then none else decQn fuel n rest
+      else none
+    | [] => none
+end
+
+def decodeG (s : String) : Option Qy :=
+  let toks := s.splitOn ";"
+  match decQ (4 * toks.length + 4) toks with
+  | some (q, []) => some q
+  | _ => none
+
+def bits? (s : String) : Option (List Bool) :=
+  if s == "-" then some [] else
+  s.toList.mapM fun c => if c == '1' then some true else if c == '0' then some false else none
+
+def parseRow (s : String) : Option TruthRow :=
+  match s.splitOn "." with
+  | [k, t, n, cs, ci] => do
+    let kc ← k.toList.head?
+    let t ← unhexB t
+    let n ← unhexB n
+    let cs ← bits? cs
+    let ci ← bits? ci
+    pure ⟨⟨kc.toNat, t, n⟩, cs, ci⟩
+  | _ => none
+
+def parseRows (s : String) : Option (List TruthRow) :=
+  if s == "-" then some [] else (s.splitOn ",").mapM parseRow
+
+/-- the model's prediction of what the implementation selects: parse the rendered string, evaluate the tree -/
+def modelBits (O : Oracle) (c : Corpus) (s : B) : String :=
+  match parse O s with
+  | .ok q => if keysPresent c q then showPred c (evalQ c q) else "?" ++ canon q
+  | .err _ => "err"
+  | .panic st => "panic:" ++ st
+  | .diverge => "diverge"
+
+def boolsToString (l : List Bool) : String :=
+  if l.isEmpty then "-" else String.ofList (l.map fun x => if x then '1' else '0')
+
+def handle (line : String) : String :=
+  let (inp, impl) := splitCase line
+  match fields inp with
+  | ["sem", g, h, tbl, repos, rows] =>
+    match decodeG g, unhexB h, parseOracleTable tbl, natList? repos, parseRows rows with
+    | some g, some s, some tbl, some repoOf, some rows =>
+      if renderQ g != s then badCase "render(G) differs from the string the harness sent" else
+      let c : Corpus := ⟨repoOf, rows⟩
+      if !(rows.all fun r => r.cs.length == c.n && r.ci.length == c.n) then badCase "truth row length" else
+      if !definedQ g then badCase "sem undefined for this tree (generator must stay inside the documented values)" else
+      let m1 := modelBits (mkOracle tbl false) c s
+      let m2 := modelBits (mkOracle tbl true) c s
+      if m1 != m2 then badCase "oracle table lacks a key the model consulted" else
+      let O := mkOracle tbl false
+      let implBits : Option (Option (List Bool)) :=
+        if impl == "err" then some none else (bits? impl).map some
+      -- the tree the theorems of Props/C06 are about (`abstractParse g`): reported when it selects other documents
+      -- than the model's parse of the rendered string (the tokenizer did not read render(g) as g)
+      let abs := match abstractParse O g with
+        | .ok q => showPred c (evalQ c q)
+        | .err _ => "err"
+        | _ => "crash"
+      let note := if abs == m1 then "" else " abstract=" ++ abs
+      match implBits with
+      | none => specFail m1 ("impl:" ++ impl)
+      | some ib =>
+        if checkP O c g ib then (if note == "" then answer m1 else specFail m1 ("roundtrip" ++ note))
+        else specFail m1 ("sem want=" ++ showPred c (semQ O c none g) ++ note)
+    | _, _, _, _, _ => badCase "fields"
+  | _ => badCase "op"
+
+def main : IO Unit := runLines handle
 end ZoektModel.C06
